@@ -96,6 +96,37 @@ impl Emitter {
     length
   }
 
+  /// Emitted at the start of a block located in the switchable ROM bank:
+  /// forget any earlier bank change.
+  pub fn encode_bank_watch_reset(&self, exec: &mut [u8]) -> usize {
+    let flag = unsafe { &(*self.mem).rom_bank_changed as *const bool as u64 };
+    let mut len = emit_move_r11_absolute(flag, exec);
+    let code = [
+      0x41, 0xc6, 0x03, 0x00, // mov byte ptr [r11], 0
+    ];
+    exec[len..len + code.len()].copy_from_slice(&code);
+    len += code.len();
+    len
+  }
+
+  /// Emitted after every instruction of a block located in the switchable ROM
+  /// bank: if that instruction mapped a different bank, leave the block now
+  /// (IP already points at the next instruction), so that the rest is
+  /// translated from, and looked up under, the bank that is mapped from here on.
+  pub fn encode_bank_watch_check(&self, exec: &mut [u8]) -> usize {
+    let flag = unsafe { &(*self.mem).rom_bank_changed as *const bool as u64 };
+    let mut len = emit_move_r11_absolute(flag, exec);
+    let code = [
+      0x41, 0x80, 0x3b, 0x00, // cmp byte ptr [r11], 0
+      0x74, 0x03, // je +3
+      0x5f, // pop rdi
+      0xff, 0xe7, // jmp rdi
+    ];
+    exec[len..len + code.len()].copy_from_slice(&code);
+    len += code.len();
+    len
+  }
+
   pub fn encode_op(&self, op: Op, ip_increment: usize, exec: &mut [u8]) -> usize {
     match op {
       Op::NoOp => self.encode_noop(exec),
@@ -1651,6 +1682,13 @@ fn emit_ip_signed_offset(offset: i8, exec: &mut [u8]) -> usize {
   exec[3] = 0xc5;
   exec[4] = offset as u8;
   5
+}
+
+fn emit_move_r11_absolute(value: u64, exec: &mut [u8]) -> usize {
+  exec[0] = 0x49; // mov r11, value
+  exec[1] = 0xbb;
+  exec[2..10].copy_from_slice(&value.to_le_bytes());
+  10
 }
 
 fn emit_cycle_increment(amount: usize, exec: &mut [u8]) -> usize {
